@@ -49,6 +49,17 @@ def gen_cases(tier, seed):
                        # counts as they come out of a counting process: integer element types; a guess near the generating model
                        "store": [None, None, "int64", "int32", "uint8", None][int(rng.integers(0, 6))], "good_guess": bool(rng.integers(0, 3) == 0),
                        "cseed": int(seed) * 67867967 + next(cs)}
+    # degenerate but admissible inputs: no counts at all (every printing setting: the final report divides by the data norm), and a
+    # guess with a component switched off (a weight of exactly zero is non-negative)
+    for i in range(12 if tier == "quick" else 60):
+        N = int(rng.integers(2, 4))
+        shape = [int(s) for s in rng.integers(2, 5, size=N)]
+        for alg in ("mu", "pdnr", "pqnr"):
+            base = {"w": "apr", "alg": alg, "rep": ["dense", "sparse"][i % 2], "shape": shape, "R": int(rng.integers(1, 4)), "dseed": int(rng.integers(0, 2 ** 31)),
+                    "empty_slice": False, "zero_row": False, "maxinneriters": int(rng.choice([1, 3, 10])), "stoptol": 1e-4, "precompinds": bool(rng.integers(0, 2)),
+                    "inexact": bool(rng.integers(0, 2)), "lbfgsMem": 3, "kappa": 0.01, "stoptime": None, "store": None, "good_guess": False}
+            yield dict(base, allzero=True, printitn=[0, 1, 2][i % 3], cseed=int(seed) * 67867967 + 300000 + next(cs))
+            yield dict(base, zero_weight=True, R=max(2, base["R"]), printitn=[0, 1][i % 2], cseed=int(seed) * 67867967 + 300000 + next(cs))
     yield from _gen_overfit(tier, seed, cs)
     yield from _gen_single_support(tier, seed, cs)
 
@@ -106,9 +117,14 @@ def run_case(case, ctx):
         X[0] = 0
         if N == 3:
             X[:, 0, 0] = 0  # an all-zero fibre
-    if X.sum() == 0:
+    if case.get("allzero"):
+        X[...] = 0.0
+    elif X.sum() == 0:
         X[(-1,) * N] = 2.0
     M0 = ttb.ktensor([rng.random((s, R)) + 0.1 for s in shape], np.ones(R))
+    if case.get("zero_weight"):
+        M0.weights[int(rng.integers(0, R))] = 0.0
+    ctx.feat(allzero=bool(case.get("allzero")), zero_weight=bool(case.get("zero_weight")))
     if case["zero_row"]:
         M0.factor_matrices[0][0, :] = 0
     if case.get("single_support"):
